@@ -140,6 +140,9 @@ def stress_documents(rng, quick):
     lacking = [b"  200\n", b"  200\n    Headers\n      {}\n", b"  Request\n    Headers\n      {}\n  200 any\n", b"  200 any\n  404\n    Headers\n      {}\n",
                b"  404 any\n  200\n", b"  Request\n  200 any\n",
                # the codes that carry no content on the wire: the directive still has to say what the body is
+               # the SAME code twice in one method, one occurrence with a body and one without: each response is serialised
+               b"  200 any\n  200\n", b"  200\n  200 any\n", b"  200\n    Headers\n      {}\n  200 any\n",
+               b"  404 any\n  200 any\n  200\n    Headers\n      {}\n", b"  200 @t\n  404 any\n  200\n",
                b"  204\n", b"  200 any\n  204\n", b"  304\n    Headers\n      {}\n", b"  100\n", b"  101\n  200 any\n", b"  199\n", b"  599\n"]
     for n in (1, 2, 3, 4):
         for k in range(n):
